@@ -63,6 +63,8 @@ def stringVerbs : List Nat := [118, 115, 120, 88, 113]               -- v s x X 
 def bytesVerbs : List Nat := [118, 100, 115, 120, 88, 113]           -- v d s x X q
 def printArgVerbs : List Nat := [84, 118]                            -- T v
 def tooLargeBound : Nat := 1000000
+/-- The functions of formatter.go that raise `ErrStringLimit` (modelled by `write`, `writePadding`, `fmtSbx`). -/
+def limitGuards : List String := ["writePadding", "fmtSbx", "Write", "WriteString", "WriteSingleByte", "WriteRune"]
 
 /-! ### fmtbuf writes (every one guarded by MaxStringLen = `L`) -/
 
@@ -181,29 +183,40 @@ def zeros (n : Nat) : Bytes := List.replicate n 48
 def isNeg (v : BitVec 64) : Bool := v.msb
 def mag (v : BitVec 64) : Nat := if v.msb then (-v).toNat else v.toNat
 
+/-- Size of the scratch buffer `fmtInteger` writes into (a lower bound: a stale `f.prec` can only
+make the real one larger). -/
+def intBufLen (f : Fl) : Nat := if f.widPresent || f.precPresent then max 68 (3 + f.wid + f.prec) else 68
+
+/-- Minimum number of digits: `%.3d` or `%03d` ("if both are specified the zero flag is ignored"). -/
+def intPrec (f : Fl) (negative : Bool) : Nat :=
+  if f.precPresent then f.prec
+  else if f.zero && f.widPresent then (if negative || f.plus || f.space then f.wid - 1 else f.wid)
+  else 0
+
+/-- Digits with leading zeros: `for i > 0 && prec > len(buf)-i { buf[i] = '0' }`. -/
+def intZeroPad (bufLen prec : Nat) (ds : Bytes) : Bytes :=
+  zeros ((if prec > ds.length then min prec bufLen else ds.length) - ds.length) ++ ds
+
+/-- `#`: leading `0b`, `0` (unless the digits already start with one), `0x` / `0X`. -/
+def sharpPrefix (f : Fl) (base : Nat) (upper : Bool) (body : Bytes) : Bytes :=
+  if f.sharp then
+    (if base = 2 then [48, 98]
+     else if base = 8 then (if body.head? != some 48 then [48] else [])
+     else if base = 16 then [48, if upper then 88 else 120]
+     else [])
+  else []
+
+def oPrefix (verb : Nat) : Bytes := if verb = 79 then [48, 111] else []      -- %O: "0o"
+
+def signBytes (f : Fl) (negative : Bool) : Bytes :=
+  if negative then [45] else if f.plus then [43] else if f.space then [32] else []
+
 /-- The bytes `fmtInteger` assembles right-to-left in `buf` (before padding), or `none` when it
-would write below index 0 (`bufLen` = size of the scratch buffer). -/
+would write below index 0. -/
 def intBody (f : Fl) (u : Nat) (negative : Bool) (base : Nat) (verb : Nat) (upper : Bool) : Option Bytes :=
-  let bufLen := if f.widPresent || f.precPresent then max 68 (3 + f.wid + f.prec) else 68
-  let prec :=
-    if f.precPresent then f.prec
-    else if f.zero && f.widPresent then (if negative || f.plus || f.space then f.wid - 1 else f.wid)
-    else 0
-  let ds := digitsOf upper base u
-  let nd := ds.length
-  let padded := if prec > nd then min prec bufLen else nd   -- `for i > 0 && prec > len(buf)-i`
-  let body := zeros (padded - nd) ++ ds
-  let pre1 : Bytes :=
-    if f.sharp then
-      (if base = 2 then [48, 98]
-       else if base = 8 then (if body.head? != some 48 then [48] else [])
-       else if base = 16 then [48, if upper then 88 else 120]
-       else [])
-    else []
-  let pre2 : Bytes := if verb = 79 then [48, 111] else []      -- %O: "0o"
-  let sign : Bytes := if negative then [45] else if f.plus then [43] else if f.space then [32] else []
-  let out := sign ++ pre2 ++ pre1 ++ body
-  if out.length > bufLen then none else some out
+  let body := intZeroPad (intBufLen f) (intPrec f negative) (digitsOf upper base u)
+  let out := signBytes f negative ++ oPrefix verb ++ sharpPrefix f base upper body ++ body
+  if out.length > intBufLen f then none else some out
 
 /-- `(*formatter).fmtInteger`. -/
 def fmtInteger (L : Nat) (f : Fl) (buf : Bytes) (u : Nat) (negative : Bool) (base : Nat) (verb : Nat) (upper : Bool) : R :=
@@ -214,22 +227,35 @@ def fmtInteger (L : Nat) (f : Fl) (buf : Bytes) (u : Nat) (negative : Bool) (bas
     | none => .error .panic
     | some out => pad L { f with zero := false } buf out
 
-/-- `fmtUnicode`. -/
-def fmtUnicode (O : Oracle) (L : Nat) (f : Fl) (buf : Bytes) (u : Nat) : R := do
+/-- The ` 'x'` part of `%#U`: present when the code point is printable (`strconv.IsPrint`). -/
+def unicodeQuoted (O : Oracle) (f : Fl) (u : Nat) : Except Err Bytes :=
+  if f.sharp && decide (u ≤ 0x10FFFF) then
+    match O.isPrint u with
+    | none => .error .unsupported
+    | some false => .ok []
+    | some true =>
+      if 0xD800 ≤ u ∧ u ≤ 0xDFFF then .error .unsupported   -- IsPrint is false for surrogates
+      else .ok ([32, 39] ++ encodeRune u ++ [39])
+  else .ok []
+
+/-- The bytes `fmtUnicode` assembles right-to-left (`U+`, zeros up to the precision, hex digits,
+quoted character), or `none` when they do not fit its buffer. -/
+def unicodeBody (f : Fl) (u : Nat) (quoted : Bytes) : Option Bytes :=
   let big := f.precPresent && decide (f.prec > 4)
   let prec := if big then f.prec else 4
   let bufLen := if big then max 68 (prec + 9) else 68
-  let quoted ← (if f.sharp && decide (u ≤ 0x10FFFF) then do
-      let p ← ask (O.isPrint u)
-      if p then
-        if 0xD800 ≤ u ∧ u ≤ 0xDFFF then Except.error Err.unsupported   -- IsPrint is false for surrogates
-        else pure ([32, 39] ++ encodeRune u ++ [39])
-      else pure []
-    else pure [] : Except Err Bytes)
   let ds := digitsOf true 16 u
   let out := [85, 43] ++ zeros (prec - ds.length) ++ ds ++ quoted
-  if out.length > bufLen then .error .panic
-  else pad L { f with zero := false } buf out
+  if out.length > bufLen then none else some out
+
+/-- `fmtUnicode`. -/
+def fmtUnicode (O : Oracle) (L : Nat) (f : Fl) (buf : Bytes) (u : Nat) : R :=
+  match unicodeQuoted O f u with
+  | .error e => .error e
+  | .ok quoted =>
+    match unicodeBody f u quoted with
+    | none => .error .panic
+    | some out => pad L { f with zero := false } buf out
 
 /-- `fmtC`. -/
 def fmtC (L : Nat) (f : Fl) (buf : Bytes) (c : Nat) : R :=
@@ -253,29 +279,41 @@ def sbxEnc (f : Fl) (upper : Bool) : Bool → Bytes → Bytes
     (if f.space && !first then (32 : UInt8) :: (if f.sharp then [48, if upper then 88 else 120] else []) else []) ++
       hexByte upper c ++ sbxEnc f upper false rest
 
+/-- Number of bytes to encode: "not more bytes than the precision demands". -/
+def sbxLength (f : Fl) (s : Bytes) : Nat := if f.precPresent && decide (f.prec < s.length) then f.prec else s.length
+
+/-- The `width` of the encoding that `fmtSbx` computes before writing (and checks against MaxStringLen). -/
+def sbxWidth (f : Fl) (length : Nat) : Nat :=
+  if f.space then (if f.sharp then 2 * (2 * length) else 2 * length) + (length - 1)
+  else if f.sharp then 2 * length + 2 else 2 * length
+
+def sbxLead (f : Fl) (upper : Bool) : Bytes := if f.sharp then [48, if upper then 88 else 120] else []
+
 /-- `fmtSbx` (strings and byte slices alike). -/
 def fmtSbx (L : Nat) (f : Fl) (buf s : Bytes) (upper : Bool) : R :=
-  let length := if f.precPresent && decide (f.prec < s.length) then f.prec else s.length
+  let length := sbxLength f s
   if length = 0 then
     (if f.widPresent then writePadding L f.zero buf f.wid else .ok buf)
   else
-    let w0 := 2 * length
-    let width := if f.space then (if f.sharp then 2 * w0 else w0) + (length - 1) else if f.sharp then w0 + 2 else w0
-    do
-      let buf ← (if f.widPresent && decide (f.wid > width) && !f.minus then writePadding L f.zero buf ((f.wid : Int) - width) else .ok buf)
+    let width := sbxWidth f length
+    match (if f.widPresent && decide (f.wid > width) && !f.minus then writePadding L f.zero buf ((f.wid : Int) - width) else .ok buf) with
+    | .error e => .error e
+    | .ok buf =>
       if buf.length + width > L then .error .limit
       else
-        let buf := buf ++ (if f.sharp then [48, if upper then 88 else 120] else []) ++ sbxEnc f upper true (s.take length)
+        let buf := buf ++ (sbxLead f upper ++ sbxEnc f upper true (s.take length))
         if f.widPresent && decide (f.wid > width) && f.minus then writePadding L f.zero buf ((f.wid : Int) - width) else .ok buf
 
 /-- `fmtQ`. -/
-def fmtQ (O : Oracle) (L : Nat) (f : Fl) (buf s : Bytes) : R := do
+def fmtQ (O : Oracle) (L : Nat) (f : Fl) (buf s : Bytes) : R :=
   let s := truncate f s
-  let raw ← (if f.sharp then ask (O.canBackquote s) else pure false)
-  if raw then pad L f buf ([96] ++ s ++ [96])
-  else do
-    let q ← ask (if f.plus then O.quoteAscii s else O.quote s)
-    pad L f buf q
+  match (if f.sharp then O.canBackquote s else some false) with
+  | none => .error .unsupported
+  | some true => pad L f buf ([96] ++ s ++ [96])
+  | some false =>
+    match (if f.plus then O.quoteAscii s else O.quote s) with
+    | none => .error .unsupported
+    | some q => pad L f buf q
 
 /-! ### Floats: post-processing of the digit string `strconv.AppendFloat` returns -/
 
@@ -293,38 +331,44 @@ def sharpScan (verb : Nat) : Bytes → Int → Bytes × Bool × Int × Bytes
       let (p, h, d', t) := sharpScan verb rest (d - 1)
       (c :: p, h, d', t)
 
+/-- Sign byte `num[0]` and the rest `num[1:]` of what `AppendFloat` wrote after the reserved sign
+slot; `none` for an answer `AppendFloat` cannot give (empty, or a sign only). -/
+def floatSplit : Bytes → Option (UInt8 × Bytes)
+  | [] => none
+  | c0 :: tl => if c0 = 45 ∨ c0 = 43 then (if tl = [] then none else some (c0, tl)) else some (43, c0 :: tl)
+
+/-- The `#` flag: force a decimal point, restore trailing zeros (`%e %f %g`, not `%b`). -/
+def sharpFix (verb : Nat) (prec : Int) (rest : Bytes) : Bytes :=
+  let digits : Int :=
+    if verb = 118 ∨ verb = 103 ∨ verb = 71 ∨ verb = 120 then (if prec = -1 then 6 else prec) else 0
+  let (p, hasDot, d, tail) := sharpScan verb rest digits
+  p ++ (if hasDot then [] else [46]) ++ zeros d.toNat ++ tail
+
+/-- The end of `fmtFloat`: sign handling and padding of a finite number (`sign` = `num[0]` after the
+space substitution, `rest` = `num[1:]`). -/
+def floatEmit (L : Nat) (f : Fl) (buf : Bytes) (sign : UInt8) (rest : Bytes) : R :=
+  if f.plus || sign != 43 then
+    if f.zero && f.widPresent && decide (f.wid > rest.length + 1) then do
+      -- sign first, zero padding, then the digits
+      let buf ← write L buf [sign]
+      let buf ← writePadding L f.zero buf ((f.wid : Int) - (rest.length + 1 : Nat))
+      write L buf rest
+    else pad L f buf (sign :: rest)
+  else pad L f buf rest
+
 /-- `(*formatter).fmtFloat(v, 64, verb, prec)`. -/
-def fmtFloatF (O : Oracle) (L : Nat) (f : Fl) (buf : Bytes) (bits : Nat) (verb : Nat) (defPrec : Int) : R := do
+def fmtFloatF (O : Oracle) (L : Nat) (f : Fl) (buf : Bytes) (bits : Nat) (verb : Nat) (defPrec : Int) : R :=
   let prec : Int := if f.precPresent then f.prec else defPrec
-  let raw ← ask (O.appendFloat bits verb prec)
-  match raw with
-  | [] => .error .unsupported
-  | c0 :: tl =>
-    -- num[0] is the sign, num[1..] the rest
-    let sign0 : UInt8 := if c0 = 45 ∨ c0 = 43 then c0 else 43
-    let rest : Bytes := if c0 = 45 ∨ c0 = 43 then tl else c0 :: tl
-    match rest with
-    | [] => .error .unsupported
-    | c1 :: _ =>
+  match O.appendFloat bits verb prec with
+  | none => .error .unsupported
+  | some raw =>
+    match floatSplit raw with
+    | none => .error .unsupported
+    | some (sign0, rest) =>
       let sign : UInt8 := if f.space && sign0 = 43 && !f.plus then 32 else sign0
-      if c1 = 73 ∨ c1 = 78 then        -- Inf / NaN
-        let num : Bytes := if c1 = 78 && !f.space && !f.plus then rest else sign :: rest
-        pad L { f with zero := false } buf num
-      else
-        let rest : Bytes :=
-          if f.sharp && verb ≠ 98 then
-            let digits : Int :=
-              if verb = 118 ∨ verb = 103 ∨ verb = 71 ∨ verb = 120 then (if prec = -1 then 6 else prec) else 0
-            let (p, hasDot, d, tail) := sharpScan verb rest digits
-            p ++ (if hasDot then [] else [46]) ++ zeros d.toNat ++ tail
-          else rest
-        if f.plus || sign != 43 then
-          if f.zero && f.widPresent && decide (f.wid > rest.length + 1) then do
-            let buf ← write L buf [sign]
-            let buf ← writePadding L f.zero buf ((f.wid : Int) - (rest.length + 1 : Nat))
-            write L buf rest
-          else pad L f buf (sign :: rest)
-        else pad L f buf rest
+      if rest.head? = some 73 ∨ rest.head? = some 78 then        -- Inf / NaN: never zero padded
+        pad L { f with zero := false } buf (if rest.head? = some 78 && !f.space && !f.plus then rest else sign :: rest)
+      else floatEmit L f buf sign (if f.sharp && verb ≠ 98 then sharpFix verb prec rest else rest)
 
 /-! ### Arguments -/
 
@@ -335,24 +379,28 @@ def typeName : Arg → Bytes
   | .bool _ => [98, 111, 111, 108]
   | .bytes _ => [98, 121, 116, 101, 115]
 
-/-- `Object.String()`. -/
-def argString (O : Oracle) : Arg → Except Err Bytes
-  | .int v => pure ((if isNeg v then [45] else []) ++ digitsOf false 10 (mag v))
-  | .float b => ask (O.floatStr b)
-  | .str s => ask (O.quote s)
-  | .bool b => pure (if b then [116, 114, 117, 101] else [102, 97, 108, 115, 101])
-  | .bytes s => pure s
+def boolText (b : Bool) : Bytes := if b then [116, 114, 117, 101] else [102, 97, 108, 115, 101]
+
+/-- `Object.String()` (`none`: oracle entry missing). -/
+def argString (O : Oracle) : Arg → Option Bytes
+  | .int v => some ((if isNeg v then [45] else []) ++ digitsOf false 10 (mag v))
+  | .float b => O.floatStr b
+  | .str s => O.quote s
+  | .bool b => some (boolText b)
+  | .bytes s => some s
 
 /-- `p.badVerb(verb)`: `%!verb(String()=%v)`. -/
-def badVerb (O : Oracle) (L : Nat) (f : Fl) (buf : Bytes) (arg : Arg) (verb : Nat) : R := do
-  let s ← argString O arg
-  let buf ← write L buf [37, 33]
-  let buf ← write L buf (encodeRune verb)
-  let buf ← write L buf [40]
-  let buf ← write L buf s
-  let buf ← write L buf [61]
-  let buf ← fmtS L f buf s
-  write L buf [41]
+def badVerb (O : Oracle) (L : Nat) (f : Fl) (buf : Bytes) (arg : Arg) (verb : Nat) : R :=
+  match argString O arg with
+  | none => .error .unsupported
+  | some s => do
+    let buf ← write L buf [37, 33]
+    let buf ← write L buf (encodeRune verb)
+    let buf ← write L buf [40]
+    let buf ← write L buf s
+    let buf ← write L buf [61]
+    let buf ← fmtS L f buf s
+    write L buf [41]
 
 /-- `fmtBytes` with verb `d`: `[1 2 3]`, every element through `fmtInteger`. -/
 def bytesElems (L : Nat) (f : Fl) : Bool → Bytes → Bytes → R
@@ -362,50 +410,58 @@ def bytesElems (L : Nat) (f : Fl) : Bool → Bytes → Bytes → R
     let buf ← fmtInteger L f buf c.toNat false 10 100 false
     bytesElems L f false buf rest
 
+def printBool (O : Oracle) (L : Nat) (f : Fl) (buf : Bytes) (b : Bool) (verb : Nat) : R :=
+  if verb = 116 then pad L f buf (boolText b) else badVerb O L f buf (.bool b) verb
+
+def printFloat (O : Oracle) (L : Nat) (f : Fl) (buf : Bytes) (bits : Nat) (verb : Nat) : R :=
+  if verb = 98 ∨ verb = 103 ∨ verb = 71 ∨ verb = 120 ∨ verb = 88 then fmtFloatF O L f buf bits verb (-1)
+  else if verb = 102 ∨ verb = 101 ∨ verb = 69 then fmtFloatF O L f buf bits verb 6
+  else if verb = 70 then fmtFloatF O L f buf bits 102 6
+  else badVerb O L f buf (.float bits) verb
+
+def printInt (O : Oracle) (L : Nat) (f : Fl) (buf : Bytes) (v : BitVec 64) (verb : Nat) : R :=
+  if verb = 100 then fmtInteger L f buf (mag v) (isNeg v) 10 verb false
+  else if verb = 98 then fmtInteger L f buf (mag v) (isNeg v) 2 verb false
+  else if verb = 111 ∨ verb = 79 then fmtInteger L f buf (mag v) (isNeg v) 8 verb false
+  else if verb = 120 then fmtInteger L f buf (mag v) (isNeg v) 16 verb false
+  else if verb = 88 then fmtInteger L f buf (mag v) (isNeg v) 16 verb true
+  else if verb = 99 then fmtC L f buf v.toNat
+  else if verb = 113 then (if v.toNat ≤ 0x10FFFF then fmtQc O L f buf v.toNat else badVerb O L f buf (.int v) verb)
+  else if verb = 85 then fmtUnicode O L f buf v.toNat
+  else badVerb O L f buf (.int v) verb
+
+def printStr (O : Oracle) (L : Nat) (f : Fl) (buf s : Bytes) (verb : Nat) : R :=
+  if verb = 115 then fmtS L f buf s
+  else if verb = 120 then fmtSbx L f buf s false
+  else if verb = 88 then fmtSbx L f buf s true
+  else if verb = 113 then fmtQ O L f buf s
+  else badVerb O L f buf (.str s) verb
+
+def printBytes (O : Oracle) (L : Nat) (f : Fl) (buf s : Bytes) (verb : Nat) : R :=
+  if verb = 100 then do
+    let buf ← write L buf [91]
+    let buf ← bytesElems L f true buf s
+    write L buf [93]
+  else if verb = 115 then fmtS L f buf s
+  else if verb = 120 then fmtSbx L f buf s false
+  else if verb = 88 then fmtSbx L f buf s true
+  else if verb = 113 then fmtQ O L f buf s
+  else .ok buf                                              -- no default arm in fmtBytes
+
 /-- `p.printArg(arg, verb)`. -/
 def printArg (O : Oracle) (L : Nat) (f : Fl) (buf : Bytes) (arg : Arg) (verb : Nat) : R :=
   if verb = 84 then fmtS L f buf (typeName arg)                -- %T
-  else if verb = 118 then do                                    -- %v: fmtS(arg.String())
-    let s ← argString O arg
-    fmtS L f buf s
+  else if verb = 118 then                                       -- %v: fmtS(arg.String())
+    match argString O arg with
+    | none => .error .unsupported
+    | some s => fmtS L f buf s
   else
     match arg with
-    | .bool b =>
-      if verb = 116 then pad L f buf (if b then [116, 114, 117, 101] else [102, 97, 108, 115, 101])
-      else badVerb O L f buf arg verb
-    | .float bits =>
-      if verb = 98 ∨ verb = 103 ∨ verb = 71 ∨ verb = 120 ∨ verb = 88 then fmtFloatF O L f buf bits verb (-1)
-      else if verb = 102 ∨ verb = 101 ∨ verb = 69 then fmtFloatF O L f buf bits verb 6
-      else if verb = 70 then fmtFloatF O L f buf bits 102 6
-      else badVerb O L f buf arg verb
-    | .int v =>
-      let u := mag v
-      let neg := isNeg v
-      if verb = 100 then fmtInteger L f buf u neg 10 verb false
-      else if verb = 98 then fmtInteger L f buf u neg 2 verb false
-      else if verb = 111 ∨ verb = 79 then fmtInteger L f buf u neg 8 verb false
-      else if verb = 120 then fmtInteger L f buf u neg 16 verb false
-      else if verb = 88 then fmtInteger L f buf u neg 16 verb true
-      else if verb = 99 then fmtC L f buf v.toNat
-      else if verb = 113 then (if v.toNat ≤ 0x10FFFF then fmtQc O L f buf v.toNat else badVerb O L f buf arg verb)
-      else if verb = 85 then fmtUnicode O L f buf v.toNat
-      else badVerb O L f buf arg verb
-    | .str s =>
-      if verb = 115 then fmtS L f buf s
-      else if verb = 120 then fmtSbx L f buf s false
-      else if verb = 88 then fmtSbx L f buf s true
-      else if verb = 113 then fmtQ O L f buf s
-      else badVerb O L f buf arg verb
-    | .bytes s =>
-      if verb = 100 then do
-        let buf ← write L buf [91]
-        let buf ← bytesElems L f true buf s
-        write L buf [93]
-      else if verb = 115 then fmtS L f buf s
-      else if verb = 120 then fmtSbx L f buf s false
-      else if verb = 88 then fmtSbx L f buf s true
-      else if verb = 113 then fmtQ O L f buf s
-      else .ok buf                                              -- no default arm in fmtBytes
+    | .bool b => printBool O L f buf b verb
+    | .float bits => printFloat O L f buf bits verb
+    | .int v => printInt O L f buf v verb
+    | .str s => printStr O L f buf s verb
+    | .bytes s => printBytes O L f buf s verb
 
 /-! ### `ToInt64` for `*` width / precision -/
 
@@ -428,23 +484,28 @@ def parseInt (s : Bytes) : Option Int :=
       if neg then (if n ≤ 9223372036854775808 then some (-(n : Int)) else none)
       else (if n ≤ 9223372036854775807 then some (n : Int) else none)
 
-/-- `ToInt64(o)`: `.ok none` = not convertible. -/
-def toInt64 (O : Oracle) : Arg → Except Err (Option Int)
-  | .int v => pure (some v.toInt)
-  | .float b => do let i ← ask (O.floatInt b); pure (some i)
-  | .bool b => pure (some (if b then 1 else 0))
-  | .str s => pure (parseInt s)
-  | .bytes _ => pure none
+/-- `ToInt64(o)`: outer `none` = oracle entry missing, inner `none` = not convertible. -/
+def toInt64 (O : Oracle) : Arg → Option (Option Int)
+  | .int v => some (some v.toInt)
+  | .float b => match O.floatInt b with | none => none | some i => some (some i)
+  | .bool b => some (some (if b then 1 else 0))
+  | .str s => some (parseInt s)
+  | .bytes _ => some none
+
+/-- `ToInt64` of every argument, resolved once (the only oracle use of the directive parser). -/
+def resolveInts (O : Oracle) : List Arg → Option (List (Option Int))
+  | [] => some []
+  | a :: rest =>
+    match toInt64 O a, resolveInts O rest with
+    | some v, some vs => some (v :: vs)
+    | _, _ => none
 
 /-- `intFromArg`: (num, isInt, newArgNum). -/
-def intFromArg (O : Oracle) (args : List Arg) (argNum : Nat) : Except Err (Int × Bool × Nat) :=
-  match args[argNum]? with
-  | none => pure (0, false, argNum)
-  | some a => do
-    let r ← toInt64 O a
-    match r with
-    | none => pure (0, false, argNum + 1)
-    | some n => if n > 1000000 ∨ n < -1000000 then pure (0, false, argNum + 1) else pure (n, true, argNum + 1)
+def intFromArg (ints : List (Option Int)) (argNum : Nat) : Int × Bool × Nat :=
+  match ints[argNum]? with
+  | none => (0, false, argNum)
+  | some none => (0, false, argNum + 1)
+  | some (some n) => if n > 1000000 ∨ n < -1000000 then (0, false, argNum + 1) else (n, true, argNum + 1)
 
 /-! ### The directive parser. Every function returns the number of bytes it consumed. -/
 
@@ -516,84 +577,89 @@ structure Dir where
 /-- `%v`: `sharpV/plusV` take over `sharp/plus`. -/
 def vFlags (f : Fl) : Fl := { f with sharpV := f.sharp, sharp := false, plusV := f.plus, plus := false }
 
-def parseDirective (O : Oracle) (args : List Arg) (argNum : Nat) (r : Bytes) : Except Err Dir := do
+/-- Width: `*` (operand through `intFromArg`) or a literal number. Returns flags, registers,
+BADWIDTH, consumed bytes. -/
+def parseWidth (ints : List (Option Int)) (f : Fl) (ps : PS) (r : Bytes) : Fl × PS × Bool × Nat :=
+  match r with
+  | 42 :: _ =>
+    let (num, isInt, an) := intFromArg ints ps.argNum
+    let f := { f with wid := num.natAbs, widPresent := isInt }
+    let f := if num < 0 then { f with minus := true, zero := false } else f
+    (f, { ps with argNum := an, afterIndex := false }, !isInt, 1)
+  | _ =>
+    let (num, isnum, k) := parsenum r
+    let ps := if ps.afterIndex && isnum then { ps with good := false } else ps
+    ({ f with wid := num, widPresent := isnum }, ps, false, k)
+
+/-- Precision: `.` followed by `*` (possibly `[n]*`) or a literal number; needs `i+1 < end`. -/
+def parsePrec (ints : List (Option Int)) (f : Fl) (ps : PS) (r : Bytes) : Fl × PS × Bool × Nat :=
+  match r with
+  | 46 :: c :: rest =>
+    let ps := if ps.afterIndex then { ps with good := false } else ps
+    let (ps, ka) := argNumber ps (c :: rest) ints.length
+    let r' := (c :: rest).drop ka
+    match r' with
+    | 42 :: _ =>
+      let (num, isInt, an) := intFromArg ints ps.argNum
+      let ok := isInt && decide (0 ≤ num)
+      ({ f with prec := if ok then num.toNat else 0, precPresent := ok }, { ps with argNum := an, afterIndex := false }, !ok, 1 + ka + 1)
+    | _ =>
+      let (num, isnum, k) := parsenum r'
+      ({ f with prec := if isnum then num else 0, precPresent := true }, ps, false, 1 + ka + k)
+  | _ => (f, ps, false, 0)
+
+/-- One directive: the bytes `r` after a `%`. `ints` = `ToInt64` of the arguments. -/
+def parseDirective (ints : List (Option Int)) (argNum : Nat) (r : Bytes) : Dir :=
   let (f, nf) := parseFlags r {} 0
   let r1 := r.drop nf
   -- fast path: a lower-case ASCII verb right after the flags and an argument left
   let fast : Option Nat :=
     match r1 with
-    | c :: _ => if 97 ≤ c.toNat ∧ c.toNat ≤ 122 ∧ argNum < args.length then some c.toNat else none
+    | c :: _ => if 97 ≤ c.toNat ∧ c.toNat ≤ 122 ∧ argNum < ints.length then some c.toNat else none
     | [] => none
   match fast with
-  | some c => pure { n := nf + 1, f := f, verb := some c, argNum := argNum }
+  | some c => { n := nf + 1, f := f, verb := some c, argNum := argNum }
   | none =>
-    let (ps, k1) := argNumber { argNum := argNum, reordered := false, good := true, afterIndex := false } r1 args.length
+    let (ps, k1) := argNumber { argNum := argNum, reordered := false, good := true, afterIndex := false } r1 ints.length
     let r2 := r1.drop k1
-    -- width
-    let (f, ps, badW, k2) ← (match r2 with
-      | 42 :: _ => do
-        let (num, isInt, an) ← intFromArg O args ps.argNum
-        let f := { f with wid := num.natAbs, widPresent := isInt }
-        let f := if num < 0 then { f with minus := true, zero := false } else f
-        pure (f, { ps with argNum := an, afterIndex := false }, !isInt, 1)
-      | _ =>
-        let (num, isnum, k) := parsenum r2
-        let ps := if ps.afterIndex && isnum then { ps with good := false } else ps
-        pure ({ f with wid := num, widPresent := isnum }, ps, false, k) : Except Err (Fl × PS × Bool × Nat))
+    let (f, ps, badW, k2) := parseWidth ints f ps r2
     let r3 := r2.drop k2
-    -- precision
-    let (f, ps, badP, k3) ← (match r3 with
-      | 46 :: c :: rest =>
-        let ps := if ps.afterIndex then { ps with good := false } else ps
-        let (ps, ka) := argNumber ps (c :: rest) args.length
-        let r' := (c :: rest).drop ka
-        match r' with
-        | 42 :: _ => do
-          let (num, isInt, an) ← intFromArg O args ps.argNum
-          let ok := isInt && decide (0 ≤ num)
-          pure ({ f with prec := if ok then num.toNat else 0, precPresent := ok }, { ps with argNum := an, afterIndex := false }, !ok, 1 + ka + 1)
-        | _ =>
-          let (num, isnum, k) := parsenum r'
-          pure ({ f with prec := if isnum then num else 0, precPresent := true }, ps, false, 1 + ka + k)
-      | _ => pure (f, ps, false, 0) : Except Err (Fl × PS × Bool × Nat))
+    let (f, ps, badP, k3) := parsePrec ints f ps r3
     let r4 := r3.drop k3
-    let (ps, k4) := if !ps.afterIndex then argNumber ps r4 args.length else (ps, 0)
+    let (ps, k4) := if !ps.afterIndex then argNumber ps r4 ints.length else (ps, 0)
     let r5 := r4.drop k4
     let consumed := nf + k1 + k2 + k3 + k4
     match r5 with
-    | [] => pure { n := consumed, f := f, badWidth := badW, badPrec := badP, verb := none, argNum := ps.argNum, good := ps.good, reordered := ps.reordered }
+    | [] => { n := consumed, f := f, badWidth := badW, badPrec := badP, verb := none, argNum := ps.argNum, good := ps.good, reordered := ps.reordered }
     | c :: _ =>
       let (verb, size) := if c.toNat < 0x80 then (c.toNat, 1) else decodeRune r5
-      pure { n := consumed + size, f := f, badWidth := badW, badPrec := badP, verb := some verb, argNum := ps.argNum, good := ps.good, reordered := ps.reordered }
+      { n := consumed + size, f := f, badWidth := badW, badPrec := badP, verb := some verb, argNum := ps.argNum, good := ps.good, reordered := ps.reordered }
 
-/-- Output of one directive: new buffer and new `argNum`. -/
-def renderDirective (O : Oracle) (L : Nat) (args : List Arg) (d : Dir) (buf : Bytes) : Except Err (Bytes × Nat) := do
+/-- `%!verb(BADINDEX)` / `%!verb(MISSING)`. -/
+def verbError (L : Nat) (buf : Bytes) (verb : Nat) (what : Bytes) : R := do
+  let buf ← write L buf [37, 33]
+  let buf ← write L buf (encodeRune verb)
+  write L buf what
+
+/-- Output of one directive. -/
+def renderDirective (O : Oracle) (L : Nat) (args : List Arg) (d : Dir) (buf : Bytes) : R := do
   let buf ← (if d.badWidth then write L buf [37, 33, 40, 66, 65, 68, 87, 73, 68, 84, 72, 41] else .ok buf)   -- %!(BADWIDTH)
   let buf ← (if d.badPrec then write L buf [37, 33, 40, 66, 65, 68, 80, 82, 69, 67, 41] else .ok buf)        -- %!(BADPREC)
   match d.verb with
-  | none => do
-    let buf ← write L buf [37, 33, 40, 78, 79, 86, 69, 82, 66, 41]                                          -- %!(NOVERB)
-    pure (buf, d.argNum)
+  | none => write L buf [37, 33, 40, 78, 79, 86, 69, 82, 66, 41]                                            -- %!(NOVERB)
   | some verb =>
-    if verb = 37 then do
-      let buf ← write L buf [37]
-      pure (buf, d.argNum)
-    else if !d.good then do
-      let buf ← write L buf [37, 33]
-      let buf ← write L buf (encodeRune verb)
-      let buf ← write L buf [40, 66, 65, 68, 73, 78, 68, 69, 88, 41]                                        -- (BADINDEX)
-      pure (buf, d.argNum)
+    if verb = 37 then write L buf [37]
+    else if !d.good then verbError L buf verb [40, 66, 65, 68, 73, 78, 68, 69, 88, 41]                      -- (BADINDEX)
     else
       match args[d.argNum]? with
-      | none => do
-        let buf ← write L buf [37, 33]
-        let buf ← write L buf (encodeRune verb)
-        let buf ← write L buf [40, 77, 73, 83, 83, 73, 78, 71, 41]                                          -- (MISSING)
-        pure (buf, d.argNum)
-      | some a => do
-        let f := if verb = 118 then vFlags d.f else d.f
-        let buf ← printArg O L f buf a verb
-        pure (buf, d.argNum + 1)
+      | none => verbError L buf verb [40, 77, 73, 83, 83, 73, 78, 71, 41]                                   -- (MISSING)
+      | some a => printArg O L (if verb = 118 then vFlags d.f else d.f) buf a verb
+
+/-- `argNum` after the directive: only a verb that printed an operand advances it. -/
+def nextArgNum (nargs : Nat) (d : Dir) : Nat :=
+  match d.verb with
+  | none => d.argNum
+  | some verb => if verb = 37 ∨ !d.good ∨ d.argNum ≥ nargs then d.argNum else d.argNum + 1
 
 /-- Literal text up to the next `%`. -/
 def litLen : Bytes → Nat
@@ -605,8 +671,8 @@ structure LoopOut where
   argNum : Nat
   reordered : Bool
 
-/-- Bytes left after one iteration, computed without the output (used for termination: the
-iteration consumes at least the `%` or the whole literal run). -/
+/-- Every iteration of the format loop consumes at least one byte: what is left after the literal
+run, its `%` and `n` more bytes is strictly shorter than what the iteration started with. -/
 theorem drop_lit_lt (r : Bytes) : ∀ r1 c, r.drop (litLen r) = c :: r1 → ∀ n, (r1.drop n).length < r.length := by
   intro r1 c hd n
   have : (r.drop (litLen r)).length ≤ r.length := by simp [List.length_drop]
@@ -615,46 +681,50 @@ theorem drop_lit_lt (r : Bytes) : ∀ r1 c, r.drop (litLen r) = c :: r1 → ∀ 
   omega
 
 /-- `formatLoop`: well-founded on the remaining format bytes, no fuel. -/
-def loop (O : Oracle) (L : Nat) (args : List Arg) (r : Bytes) (st : LoopOut) : Except Err LoopOut :=
-  if r = [] then pure st
+def loop (O : Oracle) (L : Nat) (args : List Arg) (ints : List (Option Int)) (r : Bytes) (st : LoopOut) : Except Err LoopOut :=
+  if r = [] then .ok st
   else
-    let k := litLen r
-    match (if k > 0 then write L st.buf (r.take k) else .ok st.buf) with
+    match (if litLen r > 0 then write L st.buf (r.take (litLen r)) else .ok st.buf) with
     | .error e => .error e
     | .ok buf =>
-      match hr : r.drop k with
-      | [] => pure { st with buf := buf }
+      match hr : r.drop (litLen r) with
+      | [] => .ok { st with buf := buf }
       | _ :: r1 =>
-        match parseDirective O args st.argNum r1 with
+        let d := parseDirective ints st.argNum r1
+        match renderDirective O L args d buf with
         | .error e => .error e
-        | .ok d =>
-          match renderDirective O L args d buf with
-          | .error e => .error e
-          | .ok (buf, argNum) =>
-            let st' : LoopOut := { buf := buf, argNum := argNum, reordered := st.reordered || d.reordered }
-            if d.verb.isNone then pure st'
-            else loop O L args (r1.drop d.n) st'
+        | .ok buf =>
+          let st' : LoopOut := { buf := buf, argNum := nextArgNum args.length d, reordered := st.reordered || d.reordered }
+          if d.verb.isNone then .ok st'
+          else loop O L args ints (r1.drop d.n) st'
 termination_by r.length
-decreasing_by exact drop_lit_lt r r1 _ hr d.n
+decreasing_by exact drop_lit_lt r r1 _ hr _
 
 /-- `%!(EXTRA type=value, …)`. -/
 def extras (O : Oracle) (L : Nat) : Bool → Bytes → List Arg → R
   | _, buf, [] => .ok buf
-  | first, buf, a :: rest => do
-    let buf ← (if first then .ok buf else write L buf [44, 32])
-    let buf ← write L buf (typeName a)
-    let buf ← write L buf [61]
-    let s ← argString O a
-    let buf ← write L buf s
-    extras O L false buf rest
+  | first, buf, a :: rest =>
+    match argString O a with
+    | none => .error .unsupported
+    | some s => do
+      let buf ← (if first then .ok buf else write L buf [44, 32])
+      let buf ← write L buf (typeName a)
+      let buf ← write L buf [61]
+      let buf ← write L buf s
+      extras O L false buf rest
 
 /-- `tengo.Format(format, args…)`: the string, or the string-limit error. -/
-def format (O : Oracle) (L : Nat) (fmt : Bytes) (args : List Arg) : R := do
-  let st ← loop O L args fmt { buf := [], argNum := 0, reordered := false }
-  if !st.reordered && decide (st.argNum < args.length) then do
-    let buf ← write L st.buf [37, 33, 40, 69, 88, 84, 82, 65, 32]     -- %!(EXTRA
-    let buf ← extras O L true buf (args.drop st.argNum)
-    write L buf [41]
-  else pure st.buf
+def format (O : Oracle) (L : Nat) (fmt : Bytes) (args : List Arg) : R :=
+  match resolveInts O args with
+  | none => .error .unsupported
+  | some ints =>
+    match loop O L args ints fmt { buf := [], argNum := 0, reordered := false } with
+    | .error e => .error e
+    | .ok st =>
+      if !st.reordered && decide (st.argNum < args.length) then do
+        let buf ← write L st.buf [37, 33, 40, 69, 88, 84, 82, 65, 32]     -- %!(EXTRA
+        let buf ← extras O L true buf (args.drop st.argNum)
+        write L buf [41]
+      else .ok st.buf
 
 end Tengo.Model.Format
